@@ -48,6 +48,7 @@ REV=[
  ("stop the schema field walk at types already on the path",["C16"],"R-TERM/T2"),
  ("reject a message that flattens itself",["C18","C16"],"R-TERM/T2"),
  ("print json_name when it differs",["C05"],"R-COVER"),
+ ("linker reports an import cycle",["C07"],"R-TERM/T-rec"),
 ]
 n=0
 for sub,props,expect in REV:
